@@ -258,27 +258,30 @@ LIST_STUBS = [s for s in TABLE_STUBS if 'add_rr$' not in s[0]] + [
     (r'^CdnsBlock__add_rr$', '  if (g_exc) return 0;\n'
      '  __CPROVER_assert((' + RRH + ' & 1) || !$P1->ttl.has, "C04: RR stored without a ttl when the ttl hint is off");\n'
      '  __CPROVER_assert((' + RRH + ' & 2) || !$P1->rdata_index.has, "C04: RR stored without rdata when the rdata hint is off");\n'
+     '  g_exp_names += 1UL + ($P1->rdata_index.has ? 1UL : 0UL);\n'
+     '  __CPROVER_assert(g_cnt_name == g_exp_names, "C04: exactly one name/rdata table insertion per reference stored in the RR (name, and rdata iff its index is stored)");\n'
      '  g_cnt_rr++; g_last_rr = *$P1; return nondet_index();')]
 LIST_C = '''
 __CPROVER_requires(__CPROVER_w_ok($this, sizeof(*$this)) && __CPROVER_r_ok($1, sizeof(*$1)) && g_exc == 0 && $1->n < (1UL << 56))
-__CPROVER_requires(g_cnt_name == 0 && g_cnt_ct == 0 && g_cnt_%(e)s == 0 && g_cnt_%(l)s == 0 && seq_u32__pushes == 0)
-__CPROVER_assigns(''' + CNTS + ''', seq_u32__last, seq_u32__pushes, seq_GenericResourceRecord__cur, g_exc)
+__CPROVER_requires(g_cnt_name == 0 && g_cnt_ct == 0 && g_cnt_%(e)s == 0 && g_cnt_%(l)s == 0 && seq_u32__pushes == 0 && g_exp_names == 0)
+__CPROVER_assigns(''' + CNTS + ''', g_exp_names, seq_u32__last, seq_u32__pushes, seq_GenericResourceRecord__cur, g_exc)
 __CPROVER_ensures(g_exc == 0)
-__CPROVER_ensures(g_cnt_%(e)s == $1->n && g_cnt_ct == $1->n && seq_u32__pushes == $1->n && g_cnt_%(l)s == 1 && g_cnt_name >= $1->n && g_cnt_name <= 2 * $1->n)
+__CPROVER_ensures(g_cnt_%(e)s == $1->n && g_cnt_ct == $1->n && seq_u32__pushes == $1->n && g_cnt_%(l)s == 1 && g_cnt_name >= $1->n && g_cnt_name <= 2 * $1->n && %(names)s)
 '''
 LIST_LOOP = '''
-  __CPROVER_assigns($L2, $L1, ''' + CNTS + ''', seq_u32__last, seq_u32__pushes, seq_GenericResourceRecord__cur, g_exc)
-  __CPROVER_loop_invariant($L2 <= $1->n && g_exc == 0 && g_cnt_%(e)s == $L2 && g_cnt_ct == $L2 && seq_u32__pushes == $L2 && $L1.n == $L2 && g_cnt_%(l)s == 0 && g_cnt_name >= $L2 && g_cnt_name <= 2 * $L2)
+  __CPROVER_assigns($L2, $L1, ''' + CNTS + ''', g_exp_names, seq_u32__last, seq_u32__pushes, seq_GenericResourceRecord__cur, g_exc)
+  __CPROVER_loop_invariant($L2 <= $1->n && g_exc == 0 && g_cnt_%(e)s == $L2 && g_cnt_ct == $L2 && seq_u32__pushes == $L2 && $L1.n == $L2 && g_cnt_%(l)s == 0 && g_cnt_name >= $L2 && g_cnt_name <= 2 * $L2 && %(lnames)s)
   __CPROVER_decreases($1->n - $L2)
 '''
 for nm, e, l, skipnames in [('add_generic_qlist', 'q', 'ql', 0), ('add_generic_rrlist', 'rr', 'rl', 1)]:
-    d = {'e': e, 'l': l}
+    d = {'e': e, 'l': l, 'names': 'g_cnt_name == $1->n' if nm == 'add_generic_qlist' else 'g_cnt_name == g_exp_names',
+         'lnames': 'g_cnt_name == $L2' if nm == 'add_generic_qlist' else 'g_cnt_name == g_exp_names'}
     # locals: qlist: $L1 = list, $L2 = counter ; rrlist: $L1 = rr_hints (reference), $L2 = list, $L3 = counter
     loop = LIST_LOOP % d
     if nm == 'add_generic_rrlist':
         loop = loop.replace('$L2', '$L9').replace('$L1', '$L2').replace('$L9', '$L3')
     UNITS.append(Unit('add.' + nm[4:], (BLK + nm, None), contract=LIST_C % d, loops={1: loop}, prelude=P, pre_c=PRE_C, defines=['CAPTURE_PUSH'],
-                      extra_c=EXTRA2, gen_stubs=LIST_STUBS, auto_inline=AUTO, stubs=ASTUBS + ['seq_[A-Za-z0-9_]+__(at|empty)'],
-                      setup=ADD_SETUP + '  static struct seq_GenericResourceRecord lst;\n  __CPROVER_assume(lst.n < (1UL << 56));\n  seq_u32__pushes = 0;\n',
+                      extra_c=EXTRA2 + 'unsigned long g_exp_names;\n', gen_stubs=LIST_STUBS, auto_inline=AUTO, stubs=ASTUBS + ['seq_[A-Za-z0-9_]+__(at|empty)'],
+                      setup=ADD_SETUP + '  static struct seq_GenericResourceRecord lst;\n  __CPROVER_assume(lst.n < (1UL << 56));\n  seq_u32__pushes = 0; g_exp_names = 0;\n',
                       args=['&obj', '&lst'], props=['C04', 'C01', 'C11'], timeout=900,
                       note='one table entry per resource record, in order, any list length; RR members gated by the RR hints (asserted at every add_rr call)'))
